@@ -75,8 +75,14 @@ class Check(PropertyCheck):
         return dis
 
     def search(self, boost=1):
+        return self.search_texts(self.texts(self.scale(250, 3000) * boost))
+
+    def oracle_on_texts(self, texts):
+        # the suspects twice, at two offsets too: state keyed by shape would show
+        return self.search_texts(list(texts) + [gen.place(t, 2, 1) for t in texts[:30]])
+
+    def search_texts(self, texts):
         fails = []
-        texts = self.texts(self.scale(250, 3000) * boost)
         lines = ["%d to_svg default %s" % (i, hx(t)) for i, t in enumerate(texts)]
         # 1. N fresh processes
         nproc = self.scale(8, 32)
